@@ -984,7 +984,7 @@ impl DepWorld {
         let started = if from_handoff { usize::MAX } else { self.clock.fetch_add(1, SeqCst) };
         let claim = handoff.take().or_else(|| self.dep.next());
         let Some(t) = claim else {
-            crate::oplog(format!("{:?} next() -> None; cursor {}", thread::current().id(), self.dep.index()));
+            crate::oplog(format!("{:?} next() -> None", thread::current().id()));
             return false;
         };
         crate::oplog(format!("{:?} claims tx {t}{}", thread::current().id(), if from_handoff { " (handoff)" } else { "" }));
@@ -1014,7 +1014,7 @@ impl DepWorld {
             Ws::Executed => {
                 drop(tx);
                 self.dep.remove(t, false);
-                crate::oplog(format!("{:?} remove({t}, false) done; cursor {}", thread::current().id(), self.dep.index()));
+                crate::oplog(format!("{:?} remove({t}, false) done", thread::current().id()));
                 return true;
             }
         }
@@ -1029,13 +1029,13 @@ impl DepWorld {
             Outcome::Ok => {
                 self.done[t].store(true, Relaxed);
                 *handoff = self.dep.remove(t, true);
-                crate::oplog(format!("{:?} remove({t}, true) -> {:?}; cursor {}", thread::current().id(), *handoff, self.dep.index()));
+                crate::oplog(format!("{:?} remove({t}, true) -> {:?}", thread::current().id(), *handoff));
                 tx.status = Ws::Executed;
             }
             Outcome::Blocked(d) => {
                 tx.blocker = Some(d);
                 self.dep.add(t, Some(d));
-                crate::oplog(format!("{:?} add({t}, Some({d})) done; cursor {}", thread::current().id(), self.dep.index()));
+                crate::oplog(format!("{:?} add({t}, Some({d})) done", thread::current().id()));
                 tx.blocked_at = self.clock.fetch_add(1, SeqCst);
                 tx.status = Ws::Conflict;
             }
@@ -1064,7 +1064,7 @@ impl DepWorld {
         crate::oplog(format!("{:?} commits tx {}", thread::current().id(), *next));
         self.committed.publish(*next + 1);
         self.dep.commit(*next);
-        crate::oplog(format!("{:?} commit({}) done; cursor {}", thread::current().id(), *next, self.dep.index()));
+        crate::oplog(format!("{:?} commit({}) done", thread::current().id(), *next));
         *next += 1;
         true
     }
